@@ -255,71 +255,84 @@ def scanDigits (valid : Char → Bool) (cs : List Char) : List Char := scanDigit
 
 def endsWith (l : List Char) (c : Char) : Bool := l.getLast? = some c
 
-/-- scanner.rs `scan_lit_number` on `cs = chars[pos..]`: kind, text, char count -/
-def scanLitNumber (cs : List Char) : Except Fail (LitKind × List Char × Nat) :=
-  -- integer part
-  let (radix, intPart) : Nat × List Char :=
-    match cs with
-    | [] => (10, [])
-    | '.' :: _ => (10, [])
-    | _ =>
-      let next2 := cs.take 2
-      if next2 = ['0', 'b'] || next2 = ['0', 'B'] then (2, next2 ++ scanDigits isBinaryDigit (cs.drop 2))
-      else if next2 = ['0', 'o'] || next2 = ['0', 'O'] then (8, next2 ++ scanDigits isDecimalDigit (cs.drop 2))
-      else if next2 = ['0', 'x'] || next2 = ['0', 'X'] then (16, next2 ++ scanDigits isHexDigit (cs.drop 2))
-      else (10, scanDigits isDecimalDigit cs)
+/-- scanner.rs `scan_lit_number`, first step: radix and integer part (with its prefix) -/
+def numPrefix (cs : List Char) : Nat × List Char :=
+  match cs with
+  | [] => (10, [])
+  | '.' :: _ => (10, [])
+  | _ =>
+    let next2 := cs.take 2
+    if next2 = ['0', 'b'] || next2 = ['0', 'B'] then (2, next2 ++ scanDigits isBinaryDigit (cs.drop 2))
+    else if next2 = ['0', 'o'] || next2 = ['0', 'O'] then (8, next2 ++ scanDigits isDecimalDigit (cs.drop 2))
+    else if next2 = ['0', 'x'] || next2 = ['0', 'X'] then (16, next2 ++ scanDigits isHexDigit (cs.drop 2))
+    else (10, scanDigits isDecimalDigit cs)
+
+/-- the fraction part: `.` and the digits after it, or nothing -/
+def facPartOf (radix : Nat) (afterInt : List Char) : List Char :=
+  if afterInt.head? = some '.' then
+    '.' :: scanDigits (if radix = 16 then isHexDigit else isDecimalDigit) (afterInt.drop 1)
+  else []
+
+/-- the exponent part: `e|E|p|P`, an optional sign and a digit run, or nothing -/
+def expPartOf (afterMant : List Char) : List Char :=
+  match afterMant with
+  | e :: r =>
+    if e = 'e' || e = 'E' || e = 'p' || e = 'P' then
+      match r with
+      | sg :: r' =>
+        if sg = '+' || sg = '-' then e :: sg :: scanDigits isDecimalDigit r'
+        else e :: scanDigits isDecimalDigit r
+      | [] => [e]
+    else []
+  | [] => []
+
+/-- the final classification (`numlit` = mantissa ++ exponent) -/
+def numFinish (radix : Nat) (cs numlit : List Char) (isFloat : Bool) : Except Fail (LitKind × List Char × Nat) :=
+  if (cs.drop numlit.length).head? = some 'i' then .ok (.Imag, numlit ++ ['i'], numlit.length + 1)
+  else if isFloat then .ok (.Float, numlit, numlit.length)
+  else if radix = 10 && numlit.length > 1 && numlit.head? = some '0' && (numlit.contains '8' || numlit.contains '9') then
+    .error { off := 0, reason := "invalid digit in octal literal" }
+  else .ok (.Integer, numlit, numlit.length)
+
+/-- the checks on the exponent, then the classification -/
+def numExp (radix : Nat) (cs mant facPart expPart : List Char) : Except Fail (LitKind × List Char × Nat) :=
+  if !expPart.isEmpty && !(match expPart.getLast? with | some c => isDecimalDigit c | none => false) then
+    .error { off := mant.length + expPart.length, reason := "exponent has no digits" }
+  else if radix = 16 && !facPart.isEmpty && expPart.isEmpty then
+    .error { off := mant.length + expPart.length, reason := "mantissa has no digits" }
+  else if ((expPart.drop 1).find? fun ch => ch ≠ '+' && ch ≠ '-') = some '_' || endsWith expPart '_' then
+    .error { off := mant.length + expPart.length, reason := "'_' must separate successive digits" }
+  else numFinish radix cs (mant ++ expPart) (!facPart.isEmpty || !expPart.isEmpty)
+
+/-- the checks on the mantissa, then the exponent -/
+def numMant (radix : Nat) (cs intPart facPart : List Char) : Except Fail (LitKind × List Char × Nat) :=
+  let mant := intPart ++ facPart
+  let next1 := (cs.drop mant.length).head?
+  if mant.isEmpty then .error { off := mant.length, reason := "invalid radix point" }
+  else if radix ≠ 10 && intPart.length = 2 && facPart.length ≤ 1 then .error { off := mant.length, reason := "mantissa has no digits" }
+  else if radix ≠ 10 && (next1 = some 'e' || next1 = some 'E') then
+    .error { off := mant.length, reason := "E exponent requires decimal mantissa" }
+  else if radix ≠ 16 && (next1 = some 'p' || next1 = some 'P') then
+    .error { off := mant.length, reason := "P exponent requires hexadecimal mantissa" }
+  else numExp radix cs mant facPart (expPartOf (cs.drop mant.length))
+
+/-- scanner.rs `scan_lit_number` after the integer part: kind, text, char count -/
+def scanLitNumberWith (radix : Nat) (intPart : List Char) (cs : List Char) : Except Fail (LitKind × List Char × Nat) :=
   if endsWith intPart '_' then .error { off := intPart.length, reason := "'_' must separate successive digits" }
   else if radix = 8 && (intPart.contains '8' || intPart.contains '9') then
     .error { off := 0, reason := "invalid digit in octal literal" }
   else
-  let facStart := intPart.length
-  let afterInt := cs.drop facStart
-  let hasDot := afterInt.head? = some '.'
-  if hasDot && (radix = 2 || radix = 8) then .error { off := facStart, reason := "invalid radix point" }
+  let afterInt := cs.drop intPart.length
+  if afterInt.head? = some '.' && (radix = 2 || radix = 8) then .error { off := intPart.length, reason := "invalid radix point" }
   else
-  let facPart : List Char :=
-    if hasDot then '.' :: scanDigits (if radix = 16 then isHexDigit else isDecimalDigit) (afterInt.drop 1)
-    else []
+  let facPart := facPartOf radix afterInt
   if (facPart.take 2 = ['.', '_']) || endsWith facPart '_' then
-    .error { off := facStart, reason := "'_' must separate successive digits" }
-  else
-  let mant := intPart ++ facPart
-  let skipped := mant.length
-  let afterMant := cs.drop skipped
-  let next1 := afterMant.head?
-  if mant.isEmpty then .error { off := skipped, reason := "invalid radix point" }
-  else if radix ≠ 10 && intPart.length = 2 && facPart.length ≤ 1 then .error { off := skipped, reason := "mantissa has no digits" }
-  else if radix ≠ 10 && (next1 = some 'e' || next1 = some 'E') then
-    .error { off := skipped, reason := "E exponent requires decimal mantissa" }
-  else if radix ≠ 16 && (next1 = some 'p' || next1 = some 'P') then
-    .error { off := skipped, reason := "P exponent requires hexadecimal mantissa" }
-  else
-  let expPart : List Char :=
-    match afterMant with
-    | e :: r =>
-      if e = 'e' || e = 'E' || e = 'p' || e = 'P' then
-        match r with
-        | sg :: r' =>
-          if sg = '+' || sg = '-' then e :: sg :: scanDigits isDecimalDigit r'
-          else e :: scanDigits isDecimalDigit r
-        | [] => [e]
-      else []
-    | [] => []
-  if !expPart.isEmpty && !(match expPart.getLast? with | some c => isDecimalDigit c | none => false) then
-    .error { off := skipped + expPart.length, reason := "exponent has no digits" }
-  else if radix = 16 && !facPart.isEmpty && expPart.isEmpty then
-    .error { off := skipped + expPart.length, reason := "mantissa has no digits" }
-  else if ((expPart.drop 1).find? fun ch => ch ≠ '+' && ch ≠ '-') = some '_' || endsWith expPart '_' then
-    .error { off := skipped + expPart.length, reason := "'_' must separate successive digits" }
-  else
-  let numlit := mant ++ expPart
-  let charCount := numlit.length
-  let isFloat := !facPart.isEmpty || !expPart.isEmpty
-  if (cs.drop charCount).head? = some 'i' then .ok (.Imag, numlit ++ ['i'], charCount + 1)
-  else if isFloat then .ok (.Float, numlit, charCount)
-  else if radix = 10 && numlit.length > 1 && numlit.head? = some '0' && (numlit.contains '8' || numlit.contains '9') then
-    .error { off := 0, reason := "invalid digit in octal literal" }
-  else .ok (.Integer, numlit, charCount)
+    .error { off := intPart.length, reason := "'_' must separate successive digits" }
+  else numMant radix cs intPart facPart
+
+/-- scanner.rs `scan_lit_number` on `cs = chars[pos..]`: kind, text, char count -/
+def scanLitNumber (cs : List Char) : Except Fail (LitKind × List Char × Nat) :=
+  scanLitNumberWith (numPrefix cs).1 (numPrefix cs).2 cs
 
 /-! ### one token -/
 
